@@ -32,6 +32,10 @@ type fsInode struct {
 	dbCur []pEntry
 	dbDur []pEntry
 	dbGen int
+	// an ingested table whose file content was not durable at Ingest time: after a
+	// crash the manifest names a table that is not there and the database does not open
+	dbDurBroken bool
+	dbBroken    bool
 }
 
 type fsModel struct {
@@ -128,6 +132,9 @@ func (f *fsModel) crash() {
 			if n.hasDB {
 				n.dbCur = n.dbDur
 				n.dbGen++
+				if n.dbDurBroken {
+					n.dbBroken = true
+				}
 			}
 			for _, c := range n.ents {
 				walk(c)
@@ -247,10 +254,10 @@ func (p *Path) fsOf(v Value, depth int) *fsModel {
 	return nil
 }
 
-func (p *Path) fsOpenPebble(fsv Value, dir string) *pDB {
+func (p *Path) fsOpenPebble(fsv Value, dir string) (*pDB, Value) {
 	f := p.fsOf(fsv, 0)
 	if f == nil {
-		return nil
+		return nil, nil
 	}
 	n := f.lookup(dir)
 	if n == nil {
@@ -262,14 +269,34 @@ func (p *Path) fsOpenPebble(fsv Value, dir string) *pDB {
 	if !n.hasDB {
 		n.hasDB = true
 		n.dbCur, n.dbDur = nil, nil
+		if mf := n.ents["MODELDB"]; mf != nil && !mf.dir {
+			// a checkpoint that travelled as files (C08): its content is the database
+			ents, ok := p.parseEnts(mf.data)
+			if !ok {
+				panic(unsupported{"pebble.Open on a directory with a damaged model database file"})
+			}
+			n.dbCur = ents
+			// Open syncs the directory (see below), so the file's entry is durable from
+			// here on; its content is durable as far as the writer synced it
+			if d, ok := p.parseEntsQuiet(mf.durData); ok {
+				n.dbDur = d
+			} else if len(mf.durData) != len(mf.data) {
+				n.dbDurBroken = true // a table file whose content never reached the disk
+			}
+		}
 		if !f.strict {
 			// pebble syncs its own directory; on the non-strict FS everything is durable anyway
 		}
 	}
-	// Pebble creates and syncs the files inside its own directory, never the
-	// entry of that directory in its parent.
+	if n.dbBroken {
+		return nil, p.newError("pebble: file size mismatch (disk) != (MANIFEST): an ingested table was not durable")
+	}
+	// Pebble creates and syncs the files inside its own directory (Open ends with
+	// a sync of the directory after writing its OPTIONS file), never the entry of
+	// that directory in its parent.
+	n.durEnts = copyEnts(n.ents)
 	db := &pDB{dir: dir, ents: n.dbCur, ino: n, fs: f, inoGen: n.dbGen}
-	return db
+	return db, nil
 }
 
 func (p *Path) fsPebbleFlushed(db *pDB) {
